@@ -65,7 +65,9 @@ extern "C" void harness_main()
   Memory memory; memory.endian = ENDIAN;
   uint8_t b[NBYTES];
   for (int i = 0; i < NBYTES; i++) b[i] = symx_u8("b");
-#ifdef PART_BYTE
+#ifdef PART_MASK
+  symx_assume((b[PART_BYTE] & PART_MASK) == PART_VAL);   // partition of the opcode space handled by this job
+#elif defined(PART_BYTE)
   symx_assume((b[PART_BYTE] >> 4) == PART);      // partition of the opcode space handled by this job
 #endif
   for (int i = 0; i < NBYTES; i++) memory.write8(BASE + i, b[i]);
